@@ -69,7 +69,7 @@ struct Op {
       case SANITY: snprintf(b, sizeof b, "%ssanity_check<%s>()", V, R); break;
       case DISPLAY: snprintf(b, sizeof b, "%sdisplay_param<%s>()", V, R); break;
       case DISPLAYVEC: snprintf(b, sizeof b, "%sdisplay_vec<%s>()", V, R); break;
-      case SETVEC: if (rel) snprintf(b, sizeof b, "%sset_vec<%s>(%s,%s)", V, R, p.c_str(), rel == 1 ? "current+one" : rel == 2 ? "current-last" : "current"); else snprintf(b, sizeof b, "%sset_vec<%s>(%s,len=%d)", V, R, p.c_str(), n); break;
+      case SETVEC: if (rel) snprintf(b, sizeof b, "%sset_vec<%s>(%s,%s)", V, R, p.c_str(), rel == 1 ? "current+one" : rel == 2 ? "current-last" : rel == 4 ? "{+0,1.5,2.5}" : rel == 5 ? "{-0,1.5,2.5}" : "current"); else snprintf(b, sizeof b, "%sset_vec<%s>(%s,len=%d)", V, R, p.c_str(), n); break;
       case GETVEC: snprintf(b, sizeof b, "%sget_vec<%s>(%s)", V, R, p.c_str()); break;
       case EVAL: snprintf(b, sizeof b, "%seval_%s/%s<%s>#%d", V, fn.c_str(), sig.c_str(), R, tuple); break;
       case LIST: snprintf(b, sizeof b, "%slist_mms<%s>()", V, R); break;
@@ -321,6 +321,8 @@ static Op resolve(const Op& o, const Model& M) {
   size_t dflt = 0;
   if (G.has_sel && G.h.count(G.sel)) { const Sol& s = G.h.at(G.sel); if (s.v.count(o.p)) { r.vals = s.v.at(o.p); if (DEFAULTS[o.reg].count(s.name) && DEFAULTS[o.reg].at(s.name).v.count(o.p)) dflt = DEFAULTS[o.reg].at(s.name).v.at(o.p).size(); } }
   // growth is bounded so that the space stays finite: one entry is appended to / dropped from a vector of length 3 or of the default length
+  if (o.rel == 4) { r.vals = {0.0L, 1.5L, 2.5L}; return r; }
+  if (o.rel == 5) { r.vals = {-0.0L, 1.5L, 2.5L}; return r; }
   if (o.rel == 1) { if (r.vals.size() == 3 || r.vals.size() == dflt) r.vals.push_back(9.75L); } else if (o.rel == 2 && !r.vals.empty() && (r.vals.size() == 3 || r.vals.size() == dflt)) r.vals.pop_back();
   return r;
 }
@@ -575,6 +577,8 @@ static Space make_space(const std::string& id) {
     S.key_last = (id == "c12");  // registry code is where call-order state would live: C12 keeps states apart by their last operation; C16 (misuse from every visible state) uses the plain observation
     if (id == "c16" || id == "c12x") {  // misuse operations from every state
       for (int r = 0; r < 2; r++) { S.ops.push_back(opSel(r, "nosuch")); S.ops.push_back(opInit(r, "c", "no_such_solution")); S.ops.push_back(opInit(r, "a", "euler_1dd")); }
+      // solution names made of separators only normalise to the empty string: unknown, hence fatal
+      for (int r = 0; r < 2; r++) for (const char* bad : {" ", "--", " - ", "- -"}) S.ops.push_back(opInit(r, "c", bad));
       // printf conversion specifications inside unknown handles and names (the text of a caller's string must never become a format)
       for (int r = 0; r < 2; r++) { S.ops.push_back(opSel(r, "run%s%s%n%s")); S.ops.push_back(opInit(r, "c%n%s", "no_%s%s%n_such")); }
       // one-character substitutions of a catalogue name (first, middle, last position): same length, all but one character right
@@ -651,8 +655,8 @@ static Space make_space(const std::string& id) {
     names.push_back("no_such_parameter"); names.push_back("");
     // values: ordinary, the "uninitialised" marker itself, and the marker's neighbours (a value that sanity_check classifies as the marker but
     // that is not bit-equal to it: next double towards zero; the decimal literal in long double, which differs from the double-rounded marker)
-    std::vector<LD> vals = {1.5L, (LD)MARKER, (LD)std::nextafter(MARKER, 0.0)}; if (g_tier) vals.push_back(-2.25L);
-    for (size_t ni = 0; ni < names.size(); ni++) { for (size_t vi = 0; vi < vals.size(); vi++) { if (vi == 2 && ni != 0 && !g_tier) continue; S.ops.push_back(opSet(0, names[ni], vals[vi])); } S.ops.push_back(opGet(0, names[ni])); }
+    std::vector<LD> vals = {1.5L, (LD)MARKER, (LD)std::nextafter(MARKER, 0.0), (LD)(-MARKER)}; if (g_tier) vals.push_back(-2.25L);  // (+12345.67: same magnitude as the marker, an ordinary value)
+    for (size_t ni = 0; ni < names.size(); ni++) { for (size_t vi = 0; vi < vals.size(); vi++) { if (vi >= 2 && ni != 0 && !g_tier) continue; S.ops.push_back(opSet(0, names[ni], vals[vi])); } S.ops.push_back(opGet(0, names[ni])); }
     S.ops.push_back(mk(INITPARAM, 0)); S.ops.push_back(mk(PURGE, 0)); S.ops.push_back(mk(SANITY, 0)); S.ops.push_back(mk(DISPLAY, 0));
     for (size_t vi = 0; vi < d.vn.size(); vi++) { const std::string& vn = d.vn[vi]; std::vector<int> lens = {3}; if (vi == 0 || g_tier) lens.push_back(0); if (g_tier) { lens.push_back(1); lens.push_back(30); } for (int n : lens) S.ops.push_back(opSetVec(0, vn, n));
       S.ops.push_back(opSetVecRel(0, vn, 1)); if (vi == 0 || g_tier) { S.ops.push_back(opSetVecRel(0, vn, 2)); S.ops.push_back(opSetVecRel(0, vn, 3)); }  // extend by one entry / drop the last / store the same contents again
@@ -700,6 +704,7 @@ static Space make_space(const std::string& id) {
       S.ops.push_back(opInit(0, "a", "euler_1d", c)); if (c || g_tier) S.ops.push_back(opInit(0, "r", "radiation_integrated_intensity", c));
       S.ops.push_back(opSel(0, "a", c)); if (c) S.ops.push_back(opSel(0, "r", c));
       S.ops.push_back(opSet(0, "u_0", 7.5L, c)); if (c) S.ops.push_back(opGet(0, "u_0", c)); if (c) S.ops.push_back(opGet(0, "nosuch", c));
+      if (c) { S.ops.push_back(opSetVecRel(0, "vec_mean", 4, c)); S.ops.push_back(opSetVecRel(0, "vec_mean", 5, c)); }  // two arrays that differ only in the sign of a zero entry
       if (c) { S.ops.push_back(opSetVec(0, "u_0", 1, c)); S.ops.push_back(opSetVec(0, "u_0", 3, c)); S.ops.push_back(opGetVec(0, "u_0", c)); }  // a scalar parameter's name is not an array name
       if (c) { S.ops.push_back(opGet(0, "u_0\xc2\xb0", c)); S.ops.push_back(opSet(0, "u_0\xe9", 3.25L, c)); S.ops.push_back(opGetVec(0, "vec_mean\xe2\x80\x8b", c)); }  // a registered name followed by a non-ASCII byte is another (unknown) name
       if (c) { S.ops.push_back(mk(PURGE, 0, c)); S.ops.push_back(mk(INITPARAM, 0, c)); S.ops.push_back(mk(SANITY, 0, c)); S.ops.push_back(mk(GETNAME, 0, c)); S.ops.push_back(mk(GETDIM, 0, c)); S.ops.push_back(mk(DISPLAY, 0, c)); S.ops.push_back(mk(DISPLAYVEC, 0, c)); S.ops.push_back(mk(LIST, 0, c)); }
